@@ -449,12 +449,16 @@ Proof.
 Qed.
 Print Assumptions lte_sentinel_bridge.
 
-(** Tn boundary at an interior result, under the contract that the root finder returns a zero
-    of the function it was given (validated: independent integrator at the returned velocity) *)
-Theorem lte_interior_reaches_Tn : forall o vMin vJ csTn,
-  (forall a b, (fst (diff o (rootDiff o a b)) == 0)%Q) ->
-  forall v, lte o vMin vJ csTn = Interior v -> (fst (diff o v) == 0)%Q.
-Proof. intros o vMin vJ csTn H v Hv. eapply interior_reaches_Tn; eassumption. Qed.
+(** Tn boundary at an interior result, under the bracketing root finder's contract with an
+    explicit tolerance (validated: the code's own shooting function at the returned velocity
+    is measured against it, and the independent integrator confirms the temperature) *)
+Theorem lte_interior_reaches_Tn : forall o vMin vJ csTn (tol : Q),
+  (forall a b, (a <= b)%Q -> (fst (diff o b) <= 0)%Q -> (0 <= fst (diff o a))%Q ->
+               (Qabs.Qabs (fst (diff o (rootDiff o a b))) <= tol)%Q) ->
+  forall v vmax, lte o vMin vJ csTn = Interior v ->
+  vmax_of lte_epsJ lte_epsShock o vJ csTn = Some vmax -> (vMin <= vmax)%Q ->
+  (Qabs.Qabs (fst (diff o v)) <= tol)%Q.
+Proof. intros o vMin vJ csTn tol H v vmax Hv E L. eapply interior_reaches_Tn; eassumption. Qed.
 Print Assumptions lte_interior_reaches_Tn.
 
 (** the flag consulted by findvwLTE: generated definition of Hydrodynamics.success *)
